@@ -21,7 +21,9 @@ DIMS = {
     "wrap": (["plain", "condarg", "sum2", "neg"], ["condarg", "sum2"]),
     "quad": (["auto", "deg1", "deg6", "vertex", "GLL3", "two", "two1", "mix2", "same2"], ["deg1", "two", "two1"]),
     "subdomain": (["all", "id", "tuple", "all+id"], ["tuple", "all+id"]),
-    "restr": (["++", "+-", "-+", "--", "jj", "aa", "ja"], ["+-", "-+", "jj", "ja"]),
+    # interior-facet baseline: jump(test) x avg(trial) - all four macro blocks [+,-]x[+,-] are populated in EVERY dS configuration, so a wrong '-' offset of any
+    # element kind shows at radius 1 (with the one-sided '++' baseline only the restriction deviations of P1 reached the '-' blocks)
+    "restr": (["ja", "++", "+-", "-+", "--", "jj", "aa"], ["+-", "-+", "jj", "++"]),
     "scalar": (["float64", "float32", "complex128", "complex64"], ["complex128"]),
 }
 CELLS = ["triangle", "interval", "quadrilateral", "tetrahedron", "hexahedron", "prism"]
@@ -31,7 +33,7 @@ def baseline(cell, itype):
     cfg = dict(cell=cell, itype=itype, geom="affine", arity=2, test="P1", trial="P1", op="val", factor="f", wrap="plain", quad="auto",
                subdomain="all", scalar="float64")
     if itype == "dS":
-        cfg["restr"] = "++"
+        cfg["restr"] = "ja"
     return cfg
 
 
